@@ -8,6 +8,10 @@ ROOT = os.path.dirname(os.path.dirname(os.path.abspath(__file__)))
 
 # id -> (engine, category, technique, text, note, design_ref)
 CHECKS = {
+    "C16": dict(engine="bubble", category="model_checking", design_ref="DESIGN.md section 7 C16",
+        technique="stateless exhaustive exploration of the real PacketSource goroutine/channel/timer code inside testing/synctest bubbles over all data-source scripts x explorer action orders (grant, receive, clock tick, cancel, second call)",
+        text="All data-source scripts of <=3 items [thorough 4] over {packet, truncated packet, timeout, transient error} ending in each terminal error, x 16 source/option configurations (copying / buffer-reusing source x Lazy x NoCopy x Pool), x every order of explorer actions at every quiescent point (grant the next read result, consumer receive, advance the fake clock, cancel the context, call PacketsCtx again) are executed on the implementation; plus the pull interface and ConcatFinitePacketDataSources over all scripts/splits, and a 1001-packet stalled-consumer run. Oracle per execution: delivered sequence = script packets in order, once, with their capture info and truncation flag, intact after later reads; channel closed and background goroutine gone after end of input or cancel; no read started after cancel; zero-copy+NoCopy refused; second call same channel, single reader.",
+        note="Trusted: testing/synctest quiescence/virtual time; Go's random choice between a ready send and a ready ctx.Done is not controlled (both outcomes accepted); script length bound."),
     "C20": dict(engine="bubble", category="model_checking", design_ref="DESIGN.md section 7 C20",
         technique="stateless exhaustive exploration of the real ReaderStream inside testing/synctest bubbles: all delivery histories x consumer programs x actor start orders, deadlock observed by the runtime",
         text="All delivery histories (batches of 1-2 reassemblies with byte lengths {0,1,3} and Skip {0,2,-1}, up to 2 batches [thorough 3], then completion) x all consumer programs (up to 3 [4] reads of size 1/2/8, then drain-to-EOF / Close / double Close / read-after-end) x LossErrors x every order in which the explorer lets the two goroutines start their next call are executed on the implementation. Oracle on every execution: no panic, no deadlock/livelock, bytes read = prefix (after drain: all) of delivered bytes, one DataLost per gap at the right position, 0/EOF after the end.",
